@@ -13,7 +13,8 @@ from .. import ns
 from ..core import Prop
 
 VIEWS = {"names": 0, "flat": 1, "nested": 2, "json": 3}
-ROW = re.compile(r"^  (?P<indent> *)(?P<name>\S+)(?: \((?P<aliases>[^)]*)\))?\s+(?P<help>task \d+|COLL)$")
+ROW = re.compile(r"^  (?P<indent> *)(?P<name>\S+)(?: \((?P<aliases>[^)]*)\))?(?: \[(?P<tallies>[^\]]*)\])?"
+                 r"\s+(?P<help>task \d+|COLL)$")
 
 
 def transform(s, ad):
@@ -102,17 +103,18 @@ def uses_default_subcollection(d, name):
 class C10(Prop):
     id = "C10"
     corr_module = "Corr.C10Corr"
-    preds = ("corr", "spec", "adj_names", "adj_list_b", "adj_list_c", "adj_list_d", "adj_list_all")
+    preds = ("corr", "spec", "adj_names", "adj_list_b", "adj_list_c", "adj_list_d", "adj_list_all",
+             "adj_list_e", "adj_list_all_e")
     quick_n = 1800
     thorough_n = 20000
     shard_size = 120
-    rule = ("random namespace trees (depth<=3; own aliases, add_task(name=/aliases=/default=), default tasks, default "
+    rule = ("random namespace trees (depth<=4; own aliases, add_task(name=/aliases=/default=), default tasks, default "
             "sub-collections at any level, names with underscores/dashes/leading-trailing underscores, auto-dash "
             "on/off per collection, sub-collections and roots that are the explicit `ns` of a module re-imported via "
             "Collection.from_module / add_collection(module) with either auto-dash setting, 15% trees with colliding "
             "bindings; half of the trees built in attach-then-populate order with read-only queries in between) x four views: candidate tokens (every "
             "resolvable dotted name, its _/- spelling variants, junk) through `in`, [], Parser(to_contexts()) and "
-            "Program.run; --list in flat, nested and json format parsed back; non-trivial = a view of a tree with "
+            "Program.run; --list in flat, nested and json format parsed back, also scoped (--list <sub>, <sub.sub>, misspelled and unknown roots) and depth-limited (--list-depth 1..3, tallies parsed); non-trivial = a view of a tree with "
             ">=1 sub-collection holding a task; distinct by (script, view, names)")
     trusted_base = [
         "Coq 8.16.1 kernel + vm_compute (shard evaluation)",
@@ -126,10 +128,15 @@ class C10(Prop):
         "terminal width patched to 10000 columns in the harness process (print_columns raises ValueError from "
         "textwrap when a name column is wider than the terminal; outside C10)",
         "trees where bindings inside one collection collide are outside the statement (compared with the model only)",
-        "--list-root / --list-depth not exercised",
+        "collection configurations are type-consistent along every path (C17's premise; [compat_down] in the theorems): "
+        "with a section in one collection and a plain value at the same path in another, lookup raises the documented "
+        "AmbiguousMergeError instead of answering while the parser still accepts the name -- not generated, not a "
+        "registered finding, disclosed in Properties/C10.v",
+        "from_module(module, name=X) is printed for Coq as the re-import of a module named X with an unnamed namespace "
+        "(the precedence X > ns.name > module name is the translator's; a deviation shows as a correspondence failure)",
     ]
     not_modelled = ["from_module of a module *without* explicit namespace (top-level tasks collected by introspection)",
-                    "--list-root, --list-depth, help text wrapping",
+                    "help text wrapping; the opener line of a listing (\"Available 'x' tasks (depth=N)\")",
                     "task arguments / per-task help"]
 
     def setup(self, tier, seed):
@@ -183,6 +190,25 @@ class C10(Prop):
                 yield {"script": spec, "view": "names", "names": lst[i:i + 10], "group": g}
         for v in ("flat", "nested", "json"):
             yield {"script": spec, "view": v, "names": [], "group": "list"}
+        # scoped (--list <root>) and depth-limited (--list-depth N) listings
+        paths = _sub_paths(d)
+        extra = [(None, rng.choice([1, 1, 2, 3]), rng.choice(["flat", "nested"]))]
+        for r in rng.sample(paths, min(len(paths), 2)):
+            extra.append((r, rng.choice([0, 0, 1, 2]), rng.choice(["flat", "flat", "nested", "json"])))
+        if paths and rng.random() < 0.3:
+            r = rng.choice(paths)
+            odd = [".".join(p) for p in itertools.product(*[ns.variants(x) for x in r.split(".")][:3])]
+            extra.append((rng.choice(odd + ["nope", r + ".nope"] + (tw[:1] if tw else [])), rng.choice([0, 1]),
+                          rng.choice(["flat", "nested", "json"])))
+        deep = [q for q in paths if q.count(".") >= 2]
+        if deep and rng.random() < 0.6:     # a collection two levels below the root of the listing, cut off there
+            extra.append((rng.choice(deep).split(".")[0], 2, rng.choice(["flat", "flat", "nested"])))
+        if rng.random() < 0.1:
+            extra.append((rng.choice(paths) if paths and rng.random() < 0.5 else None, rng.choice([1, 2]), "json"))
+        for r, dl, v in extra:
+            if r == "" or (r and r.startswith("-")):
+                continue
+            yield {"script": spec, "view": v, "names": [], "group": "list", "root": r, "depth": dl}
 
     def generate(self, rng, tier, n):
         out = 0
@@ -190,7 +216,7 @@ class C10(Prop):
             ids = ns.Ids()
             clean = rng.random() < 0.85
             plain = rng.random() < 0.5      # no binding-level aliases, fewer default sub-collections
-            spec = ns.gen_coll(rng, rng.choice([1, 2, 2, 3, 3]), ids, name=rng.choice([None, "root", "my_ns"]),
+            spec = ns.gen_coll(rng, rng.choice([1, 2, 2, 3, 3, 4]), ids, name=rng.choice([None, "root", "my_ns"]),
                                clean=clean, share=0.0 if clean else 0.1,
                                p_subdefault=0.1 if plain else 0.45, p_extra=0.0 if plain else 0.25,
                                p_rename=rng.choice([0.0, 0.3]), p_mod=rng.choice([0.0, 0.0, 0.35]),
@@ -199,10 +225,20 @@ class C10(Prop):
                 # the root is the explicit namespace of a module re-imported by from_module
                 # (what Program.load_collection does, with tasks.auto_dash_names from the config)
                 spec = ns.wrap_module(rng, dict(spec, name=rng.choice([None, "root_ns"])))
-            elif rng.random() < 0.15:
-                # the ordinary case: a tasks module without explicit namespace, loaded by from_module
-                flat = dict(spec, name=rng.choice(["tasks", "my_tasks", "class_"]),
-                            items=[it for it in spec["items"] if "task" in it])
+            elif rng.random() < 0.2:
+                # the ordinary case: a tasks module without explicit namespace, loaded by from_module:
+                # the root's tasks, bound by their own (function) names
+                seen_ids, seen_names, items = set(), set(), []
+                for it in spec["items"]:
+                    if "task" in it and it["task"]["id"] not in seen_ids and \
+                            it["task"]["name"].replace("_", "-") not in seen_names:
+                        seen_ids.add(it["task"]["id"])
+                        seen_names.add(it["task"]["name"].replace("_", "-"))
+                        items.append({"task": dict(it["task"], aliases=[a for a in it["task"]["aliases"]
+                                                                        if a.replace("_", "-") not in seen_names]),
+                                      "bind": None, "aliases": [], "default": None})
+                        seen_names.update(a.replace("_", "-") for a in items[-1]["task"]["aliases"])
+                flat = dict(spec, name=rng.choice(["tasks", "my_tasks", "class_"]), items=items)
                 if ns.plain_module_ok(flat):
                     spec = ns.as_plain_module(flat)
             seed = rng.randrange(1 << 30) if rng.random() < 0.5 else None
@@ -242,6 +278,15 @@ class C10(Prop):
                                                                               {"coll": msub, "bind": None, "default": d_sub}]))
                             yield from self._cases_for(rng, {"module": "tasks", "ad": ad_mod,
                                                              "ns": dict(sub, name=None)})
+
+        # ordinary tasks modules (no explicit namespace) whose function names start / end with underscores,
+        # contain double underscores or capitals: from_module binds them by add_task(task)
+        for ad_mod in (True, False):
+            for nm in ("tasks", "my_tasks"):
+                items = [{"task": t(i + 1, n), "bind": None, "aliases": [], "default": None}
+                         for i, n in enumerate(["_cleanup_all", "q_", "my__task", "Build_All", "run_it"])]
+                flat = {"name": nm, "auto_dash": ad_mod, "config": {}, "items": items}
+                yield from self._cases_for(rng, ns.as_plain_module(flat))
 
     # ---- implementation ----------------------------------------------------
     def run_impl(self, case):
@@ -302,8 +347,11 @@ class C10(Prop):
                 obs["nobs"].append(o)
         else:
             fmt = case["view"]
+            argv = ["prog", "--list"] + ([case["root"]] if case.get("root") else []) + ["--list-format=" + fmt]
+            if case.get("depth"):
+                argv.append("--list-depth=%d" % case["depth"])
             try:
-                text = run(["prog", "--list", "--list-format=" + fmt])
+                text = run(argv)
             except Exception as e:  # noqa
                 obs["rows"] = {"err": type(e).__name__}
                 return obs
@@ -327,8 +375,10 @@ class C10(Prop):
         rows = ct.result(obs["rows"], lambda rs: ct.lst([
             "(%s, %s, %s, %s)" % (ct.n(r[0]), ct.s(r[1]), ct.strs(r[2]),
                                   ct.opt(ct.n(r[3]) if r[3] is not None else None)) for r in rs]))
-        return "(mk %s %s %s %s %s %s)" % (ns.sub(case["script"]), ct.n(VIEWS[case["view"]]),
-                                                                ct.strs(case["names"]), st, nobs, rows)
+        return "(mk %s %s %s %s %s %s %s %s)" % (ns.sub(case["script"]), ct.n(VIEWS[case["view"]]),
+                                                ct.strs(case["names"]), st, nobs, rows,
+                                                ct.opt(ct.s(case["root"]) if case.get("root") else None),
+                                                ct.n(case.get("depth") or 0))
 
     def nontrivial(self, case, obs):
         if "ok" not in obs["state"]:
@@ -341,7 +391,8 @@ class C10(Prop):
             return "build-err:" + obs["state"]["err"]
         if case["view"] == "names":
             return "names:" + case.get("group", "?")
-        return "list:" + case["view"] + (":refused" if "err" in obs["rows"] else "")
+        return "list:" + case["view"] + (":root" if case.get("root") else "") + \
+            (":depth" if case.get("depth") else "") + (":refused" if "err" in obs["rows"] else "")
 
     def finding_of(self, case, obs, verdict=None):
         """Which mechanism is present is read off the built tree; the judgement is made in Coq: a finding
@@ -371,9 +422,21 @@ class C10(Prop):
             if ids and all(i is not None for i in ids):
                 return ids[0]
             return None
+        root_ad = d["auto_dash"]
+        if case.get("root"):
+            d = _focus(d, case["root"])      # the signatures are read off the collection in focus
+            if d is None:
+                return None
         sig_b = tree_has(d, lambda c: bool(binding_aliases(c)))
         sig_c = case["view"] == "json" and tree_has(d, renamed)
-        sig_d = tree_has(d, lambda c: mixed_spelling(c, d["auto_dash"]))
+        sig_d = tree_has(d, lambda c: mixed_spelling(c, root_ad))
+        # F-C10e: flat, scoped, depth limit >= 2 and some collection exactly that deep below the focus
+        sig_e = case["view"] == "flat" and bool(case.get("root")) and (case.get("depth") or 0) >= 2 and \
+            any(p.count(".") + 1 == case["depth"] for p in _sub_paths(d))
+        if sig_e and not (sig_b or sig_d) and v.get("adj_list_e"):
+            return "F-C10e"
+        if sig_e and (sig_b or sig_d) and not v.get("adj_list_all") and v.get("adj_list_all_e"):
+            return "F-C10e"
         if sig_b and v.get("adj_list_b"):
             return "F-C10b"
         if sig_c and v.get("adj_list_c"):
@@ -402,6 +465,24 @@ class C10(Prop):
         for sp in itertools.islice(ns.shrink_spec(case["script"]), 30):
             for c in self._cases_for(rng, sp):
                 yield c
+
+
+def _sub_paths(d, prefix=""):
+    """dotted binding-key paths of every sub-collection of a dumped tree"""
+    out = []
+    for k, sc in d["subs"]:
+        out.append(prefix + k)
+        out.extend(_sub_paths(sc, prefix + k + "."))
+    return out
+
+
+def _focus(d, root):
+    for part in root.split("."):
+        subs = dict((k, v) for k, v in d["subs"])
+        if part not in subs:
+            return None
+        d = subs[part]
+    return d
 
 
 class _Bodies(Exception):
@@ -436,6 +517,8 @@ def _text_rows(text):
             raise ValueError("unparsable listing line %r" % lines[i])
         aliases = [a for a in (m.group("aliases") or "").split(", ") if a]
         h = m.group("help")
+        if h == "COLL":       # a truncated collection row: its tallies travel in the alias column
+            aliases = [a for a in (m.group("tallies") or "").split(", ") if a]
         rows.append([len(m.group("indent")) // 4, m.group("name"), aliases,
                      int(h[5:]) if h.startswith("task ") else None])
         i += 1
